@@ -54,7 +54,7 @@ func worker() {
 	out := bufio.NewWriter(os.Stdout)
 	c := compiler.New()
 	fqlrun.Register(c)
-	params := map[string]interface{}{"n": 2, "arr": []interface{}{3, 1, 2, 1}, "obj": map[string]interface{}{"a": 1, "list": []interface{}{1, 2}}, "s": "k", "f": 1.5,
+	params := map[string]interface{}{"n": 2, "arr": []interface{}{3, 1, 2, 1}, "obj": map[string]interface{}{"a": 1, "list": []interface{}{1, 2}}, "s": "k", "f": 1.5, "big": []interface{}{2, 1, 2, 1},
 		"html": `<html><body><div id="a" class="c" style="color: red"><p>one</p><p>two</p></div><ul><li>x</li><li>y</li></ul></body></html>`}
 	for in.Scan() {
 		var t task
